@@ -162,6 +162,17 @@ func (p *clientStreamProcessorFMP4) processSegment(ctx context.Context, seg *seg
 
 	leadingPartTrack := findFirstPartTrackOfLeadingTrack(parts, p.leadingTrackID)
 	if leadingPartTrack == nil {
+		// a Low-Latency part of a rendition is empty when no sample fell into it
+		empty := true
+		for _, part := range parts {
+			if len(part.Tracks) != 0 {
+				empty = false
+			}
+		}
+		if empty {
+			return nil
+		}
+
 		return fmt.Errorf("could not find data of leading track")
 	}
 
